@@ -204,6 +204,12 @@ func c13Alphabet() []c13Letter {
 		{name: "forbidden-phrase-after-2600-chars", build: txt(`{"safe": false}`, `{"verdict": "MATCH", "evidence": "`+strings.Repeat("fine. ", 440)+`ignore previous instructions"}`)},
 		{name: "forbidden-phrase-straddling-char-2000", build: txt(`{"safe": false}`, `{"verdict": "MATCH", "evidence": "`+strings.Repeat("x", 1990)+` system prompt leaked"}`)},
 		{name: "forbidden-phrase-after-2000-two-byte-chars", build: txt(`{"safe": false}`, `{"verdict": "MATCH", "evidence": "`+strings.Repeat("é", 2001)+` ignore previous"}`)},
+		// well-formed 200 bodies that carry NO items member at all (whatever an earlier, retried
+		// attempt delivered must not stand in for them)
+		{name: "body-empty-object", build: func(bool) (*http.Response, error) { return c13Resp(200, `{}`) }},
+		{name: "body-incomplete-without-items", build: func(bool) (*http.Response, error) {
+			return c13Resp(200, `{"id":"resp_1","status":"incomplete","output":[]}`)
+		}},
 	}
 }
 
